@@ -34,6 +34,9 @@ def main():
     do_fix = "--fixes" in sys.argv or "--seeded" not in sys.argv
     do_seed = "--seeded" in sys.argv or "--fixes" not in sys.argv
     assert clean(), "/repo is not clean"
+    import shutil, tempfile
+    bak = tempfile.mkdtemp(prefix="evbak-", dir="/var/tmp")
+    shutil.copytree(os.path.join(ROOT, "evidence"), os.path.join(bak, "evidence"))
     results = []
     if do_seed:
         for d in sorted(glob.glob(os.path.join(ROOT, "seeded", "*"))):
@@ -75,6 +78,9 @@ def main():
             results.append(dict(kind="fix", name=commit, property=prop, what=what[:120], checks=r, detected=ok))
             print("%-55s %s %s" % (commit + " " + prop, "DETECTED" if ok else "MISSED  ", {k: v["rc"] for k, v in r.items()}), flush=True)
     assert clean(), "/repo was left dirty"
+    shutil.rmtree(os.path.join(ROOT, "evidence"), ignore_errors=True)
+    shutil.copytree(os.path.join(bak, "evidence"), os.path.join(ROOT, "evidence"))
+    shutil.rmtree(bak, ignore_errors=True)
     json.dump(dict(at=time.strftime("%Y-%m-%dT%H:%M:%S"), results=results), open(os.path.join(ROOT, "selftest_result.json"), "w"), indent=1)
     missed = [r for r in results if not r.get("detected")]
     print("%d cases, %d not detected" % (len(results), len(missed)))
